@@ -473,6 +473,8 @@ func planCoverageFloors(ctx *Ctx, s *schema.Schema) {
 	need("big.bits.300-4095", 3)
 	need("big.bits.4096+", 1)
 	need("big.negative", 5)
+	need("text.invalid-utf8", 3)
+	need("date.extreme", 3)
 	for id := range dynTypes {
 		if dynTypes[id] != reflect.TypeFor[ttlv.Value]() {
 			need("standalone."+s.Dyns[id].GoType, 1)
